@@ -1,11 +1,13 @@
 package checks
 
 import (
+	"fmt"
 	"os"
 	"path/filepath"
 	"strings"
 
 	"verif/internal/core"
+	"verif/internal/fcx"
 	"verif/internal/fo"
 	"verif/internal/scratch"
 )
@@ -65,7 +67,7 @@ func runC17(r *core.Run, tier string) {
 	if tier == "thorough" {
 		n = 6000
 	}
-	r.Rule("a case is one generated program of the tinyfo profile (annotated functions, + - comparisons && || not, = <>, if/elif/else and if-only, non-generic records and unions with match (bind / _ / no payload / default), slice literals, pairs and 2-destructuring, pipes, partial application, calls to frt/slice/strings through package_info); it is transpiled by the rebuilt tinyfo AND by the rebuilt fc, both outputs are compiled and run, and both stdouts are compared with each other and with the reference evaluator; a C17 violation is tinyfo != (fc = reference); non-trivial = at least 3 tracer events predicted; distinct by source hash")
+	r.Rule("a case is one generated program of the tinyfo profile (annotated functions, + - comparisons && || not, = <>, if/elif/else and if-only, non-generic records and unions with match (bind / _ / no payload / default), slice literals, pairs and 2-destructuring, pipes, partial application, calls to frt/slice/strings through package_info); it is transpiled by the rebuilt tinyfo AND by the rebuilt fc, both outputs are compiled and run, and both stdouts are compared with each other and with the reference evaluator; a C17 violation is tinyfo != (fc = reference); in addition every chain of 1..3 (thorough 4) binary operators of the subset is translated by both compilers and the emitted groupings are compared as text; non-trivial = at least 3 tracer events predicted; distinct by source hash")
 	r.Assume("both compilers receive the same dict-free concatenation of frt/buf/slice/strings/sys .foi files", "fc != reference is reported under C01, not here")
 	cases, discarded, why := genCases(r.SeedV, "c17", fo.ProfileTiny, n, 0)
 	tc := cases
@@ -111,6 +113,7 @@ func runC17(r *core.Run, tier string) {
 			r.Violate("tinyfo-output:"+c.key, "tinyfo output behaves differently from fc output and the reference: "+c.detail, files)
 		}
 	}
+	c17Chains(r, env, tiny, fc, tier)
 	r.Set("programs", len(tc))
 	r.Set("three_way_agreement", agree3)
 	r.Set("fc_disagrees_with_reference_not_judged", fcOff)
@@ -128,5 +131,87 @@ func runC17(r *core.Run, tier string) {
 	}
 	if len(tc) > 0 {
 		r.Sample(map[string]any{"source": strings.Split(tc[0].src, "\n"), "predicted_stdout": strings.Split(tc[0].expect, "\n")})
+	}
+}
+
+// c17Chains: every chain of 1..3 (thorough 4) binary operators of the tinyfo subset over plain
+// variables, translated by tinyfo and by fc: the emitted return expression (its grouping) must be
+// the same text. Neither compiler checks the operand types of a chain, so all chains are used.
+func c17Chains(r *core.Run, env *scratch.Env, tiny, fc, tier string) {
+	ops := []string{"+", "-", "<", ">", "<=", ">=", "=", "<>", "&&", "||"}
+	maxLen := 3
+	if tier == "thorough" {
+		maxLen = 4
+	}
+	var chains []string
+	var rec func(cur string, n int)
+	rec = func(cur string, n int) {
+		if n > 0 {
+			chains = append(chains, cur)
+		}
+		if n == maxLen {
+			return
+		}
+		for _, o := range ops {
+			rec(cur+" "+o+" "+string(rune('b'+n)), n+1)
+		}
+	}
+	rec("a", 0)
+	const params = "(a:int) (b:int) (c:int) (d:int) (e:int)"
+	type res struct{ tiny, fc map[string]string }
+	nb := (len(chains) + 199) / 200
+	out := make([]res, nb)
+	rejected := make([]string, nb)
+	scratch.Parallel(nb, 8, func(b int) {
+		lo, hi := b*200, (b+1)*200
+		if hi > len(chains) {
+			hi = len(chains)
+		}
+		var src strings.Builder
+		src.WriteString("package main\n\n")
+		for i := lo; i < hi; i++ {
+			fmt.Fprintf(&src, "let c%d %s =\n  %s\n\n", i, params, chains[i])
+		}
+		grab := func(bin, tag string) map[string]string {
+			o := fcx.Transpile(bin, "", filepath.Join(env.Dir("c17chains"), fmt.Sprintf("%s%d", tag, b)), map[string]string{"x.fo": src.String()}, []string{"x.fo"}, nil, 60)
+			got := map[string]string{}
+			if o.Res.Exit != 0 || o.Gen["gen_x.go"] == "" {
+				rejected[b] += tag + ": " + oneLineN(o.Diag(), 160) + "; "
+				return got
+			}
+			lines := strings.Split(o.Gen["gen_x.go"], "\n")
+			for i, l := range lines {
+				if m := c08FuncRe.FindStringSubmatch(l); m != nil && i+1 < len(lines) {
+					got[m[1]] = strings.Join(strings.Fields(strings.TrimPrefix(strings.TrimSpace(lines[i+1]), "return ")), "")
+				}
+			}
+			return got
+		}
+		out[b] = res{grab(tiny, "tinyfo"), grab(fc, "fc")}
+	})
+	compared := 0
+	for i, ch := range chains {
+		b := i / 200
+		name := fmt.Sprintf("c%d", i)
+		t, okT := out[b].tiny[name]
+		f, okF := out[b].fc[name]
+		r.Eval("chain:"+ch, strings.Count(ch, " ") >= 4)
+		if !okT || !okF {
+			continue
+		}
+		compared++
+		if t != f {
+			r.Violate("tinyfo-chain-grouping:"+ch, fmt.Sprintf("operator chain `%s`: tinyfo emits %s, fc emits %s", ch, t, f), map[string]string{"chain.txt": ch + "\ntinyfo: " + t + "\nfc:     " + f + "\n"})
+		}
+	}
+	for b, why := range rejected {
+		if why != "" {
+			r.Count("chain_batches_rejected", 1)
+			r.Sample(map[string]any{"chain_batch": b, "rejected": why})
+		}
+	}
+	r.Set("operator_chains_compared_tinyfo_vs_fc", compared)
+	if compared < len(chains)/2 {
+		r.Inconclusive("fewer than half of the operator chains could be compared (a batch was rejected)")
 	}
 }
